@@ -714,6 +714,7 @@ fn exec_stmt(w: &Rc<World>, env: &mut Vec<H>, run: &mut Run, s: &Stmt) {
                     sh.expected_panic = Some("ctxdup");
                 }
             }
+            let dup = { let sh = w.sh.borrow(); let cur = sh.cur(); !sh.killed[cur] && sh.provided[cur].iter().any(|(t, _)| t == ty) };
             match ty {
                 0 => provide_context(Ctx0(v)),
                 1 => provide_context(Ctx1(v)),
@@ -721,6 +722,10 @@ fn exec_stmt(w: &Rc<World>, env: &mut Vec<H>, run: &mut Run, s: &Stmt) {
             }
             let mut sh = w.sh.borrow_mut();
             let cur = sh.cur();
+            if dup {
+                // C16: "providing the same type twice in one scope panics" — we are still here
+                sh.ctx_fail.get_or_insert(format!("[context] provide_context::<Ctx{ty}> in scope {cur}, which already provides that type, did not panic"));
+            }
             sh.provided[cur].push((*ty, v));
         }
         Stmt::Use(ty) => {
